@@ -84,7 +84,7 @@ def _thr(tol, mx):
         return float(np.float64(tol) * np.float64(mx))
 
 
-def classify(vals, thr):
+def classify(vals, thr, rel=EPS8):
     """(#values certainly above thr, #values exactly at thr, are those all bit-identical).  vals: 1d array."""
     vals = np.asarray(vals, dtype=float)
     if thr != thr:                       # inf * 0: the values are all zero, weightless: any decision
@@ -93,10 +93,11 @@ def classify(vals, thr):
         return len(vals), 0, True
     if thr == INF:
         return 0, 0, True
-    slack = EPS8 * abs(thr)
+    slack = rel * abs(thr)
     eq = np.abs(vals - thr) <= slack
     strict = (vals > thr) & ~eq
-    return int(strict.sum()), int(eq.sum()), bool(len(set(vals[eq].tolist())) <= 1)
+    # representatives of clustered (recomputed) spectra stand for values that differ in the last bits: any split is possible
+    return int(strict.sum()), int(eq.sum()), bool(len(set(vals[eq].tolist())) <= 1 and rel <= EPS8)
 
 
 def options(n_strict, n_eq, same):
@@ -112,7 +113,8 @@ def capped(D, n):
 class Spec:
     """blocks: {t: 1d values};  limits as passed to the library (dicts must cover every sector)."""
 
-    def __init__(self, blocks, D_block=INF, tol_block=0, D_total=INF, tol=0):
+    def __init__(self, blocks, D_block=INF, tol_block=0, D_total=INF, tol=0, rel=EPS8):
+        self.rel = rel
         self.blocks = {t: np.sort(np.asarray(v, dtype=float))[::-1] for t, v in blocks.items()}
         self.Db = {t: (D_block[t] if isinstance(D_block, dict) else D_block) for t in blocks}
         self.tb = {t: (tol_block[t] if isinstance(tol_block, dict) else tol_block) for t in blocks}
@@ -122,7 +124,7 @@ class Spec:
         for t, v in self.blocks.items():
             mx = float(np.max(np.abs(v))) if len(v) else 0.0
             self.thr_b[t] = _thr(self.tb[t], mx)
-            ns, ne, same = classify(v, self.thr_b[t])
+            ns, ne, same = classify(v, self.thr_b[t], rel)
             if ne and self.thr_b[t] == self.thr_b[t] and (self.thr_b[t] != 0):
                 self.exact_hits += 1
             self.kopts[t] = sorted({capped(self.Db[t], n) for n in options(ns, ne, same)})
@@ -140,23 +142,29 @@ class Spec:
             pool = np.sort(cat(self.blocks[t][:kb[t]] for t in ts))[::-1]
             mx = float(np.max(np.abs(pool))) if len(pool) else 0.0
             thr = _thr(self.tol, mx)
-            ns, ne, same = classify(pool, thr)
+            ns, ne, same = classify(pool, thr, self.rel)
             for n in options(ns, ne, same):
                 yield kb, pool, capped(self.D_total, n), thr, (ne > 0 and thr == thr and thr != 0)
 
     def verify(self, kept):
-        """kept: {t: 1d array of kept values}.  None when some reading explains the outcome, else (event, text)."""
+        """kept: {t: 1d array of kept values}.  None when some reading explains the outcome, else (event, text).
+
+        Exact zeros carry no weight: the kept non-zero values must be exactly the non-zero values of the top-K survivors;
+        zeros may be kept only as far as the top-K survivors contain zeros."""
         kc = {t: collections.Counter(np.asarray(kept.get(t, []), dtype=float).tolist()) for t in self.blocks}
         allk = collections.Counter()
         for c in kc.values():
             allk.update(c)
+        nz = collections.Counter({v: n for v, n in allk.items() if v != 0})
+        nzero = allk.get(0.0, 0)
         first = None
         for kb, pool, K, thr, hit in self.readings():
             if first is None:
                 first = (kb, pool, K, thr)
             if any(any(n > collections.Counter(self.blocks[t][:kb[t]].tolist())[v] for v, n in kc[t].items()) for t in kc):
                 continue
-            if allk == collections.Counter(pool[:K].tolist()):
+            top = pool[:K]
+            if nz == collections.Counter(top[top != 0].tolist()) and nzero <= int(np.sum(top == 0)):
                 return None
         return self.diagnose(kc, allk, *first)
 
@@ -172,7 +180,7 @@ class Spec:
             if self.Db[t] != INF and n > self.Db[t]:
                 return "D_block-exceeded", f"sector {t}: {n} values kept, D_block = {self.Db[t]}"
             th = self.thr_b[t]
-            if th == th and any(v < th - EPS8 * abs(th) for v in c):
+            if th == th and any(v < th - self.rel * abs(th) for v in c):
                 return "tol_block-not-respected", f"sector {t}: kept {sorted(c.elements())[:4]} below tol_block*max = {th}"
             top = collections.Counter(self.blocks[t][:kb[t]].tolist())
             if any(m > top[v] for v, m in c.items()):
@@ -181,10 +189,12 @@ class Spec:
                 return "block-not-largest", f"sector {t}: kept {sorted(c.elements(), reverse=True)[:6]} is not among its {kb[t]} largest {self.blocks[t][:kb[t]].tolist()[:6]}"
         if self.D_total != INF and nk > self.D_total:
             return "D_total-exceeded", f"{nk} values kept, D_total = {self.D_total}"
-        if thr == thr and any(v < thr - EPS8 * abs(thr) for v in allk):
+        if thr == thr and any(v < thr - self.rel * abs(thr) for v in allk):
             return "tol-not-respected", f"kept value below tol*max = {thr}"
-        if nk < K:
-            return "kept-fewer-than-allowed", (f"{nk} values kept where the limits allow {K}: kept {sorted(allk.elements(), reverse=True)[:8]}, "
+        topnz = int(np.sum(pool[:K] != 0))
+        nknz = sum(n for v, n in allk.items() if v != 0)
+        if nknz < topnz:
+            return "kept-fewer-than-allowed", (f"{nknz} non-zero values kept where the limits allow {topnz}: kept {sorted(allk.elements(), reverse=True)[:8]}, "
                                                f"survivors of the block stage {pool.tolist()[:10]}")
         if nk > K:
             return "kept-more-than-allowed", f"{nk} values kept where the limits allow {K}"
@@ -195,12 +205,12 @@ class Spec:
         kb, pool, K, thr, _ = next(self.readings())
         out = set()
         for t, v in self.blocks.items():
-            ns, _, _ = classify(v, self.thr_b[t])
+            ns, _, _ = classify(v, self.thr_b[t], self.rel)
             if ns < len(v[v != 0]):
                 out.add("tol_block")
             if self.Db[t] != INF and self.Db[t] < ns:
                 out.add("D_block")
-        ns, _, _ = classify(pool, thr)
+        ns, _, _ = classify(pool, thr, self.rel)
         if ns < len(pool[pool != 0]):
             out.add("tol")
         if self.D_total != INF and self.D_total < ns:
@@ -379,9 +389,9 @@ def count_params(ctx, kw, spec, blocks):
         ctx.count("threshold_exactly_hit")
 
 
-def judge_mask(ctx, fn, blocks, kept, kw, w):
+def judge_mask(ctx, fn, blocks, kept, kw, w, rel=EPS8):
     """Run the specification; returns True when the outcome is explained."""
-    spec = Spec(blocks, kw.get("D_block", INF), kw.get("tol_block", 0), kw.get("D_total", INF), kw.get("tol", 0))
+    spec = Spec(blocks, kw.get("D_block", INF), kw.get("tol_block", 0), kw.get("D_total", INF), kw.get("tol", 0), rel)
     count_params(ctx, kw, spec, blocks)
     bad = spec.verify(kept)
     if bad is None:
@@ -467,12 +477,12 @@ def rel_gap(a, b):
     return 0.0 if m == 0 else abs(a - b) / m
 
 
-def judge_multiplets_flag(ctx, blocks, kept, kw, w):
+def judge_multiplets_flag(ctx, blocks, kept, kw, w, rel=EPS8):
     """truncate_multiplets=True: D_block / tol_block ignored; cut K0 = min(D_total, #{v > tol max}) moved to the largest gap at or after K0."""
     s = np.sort(cat(blocks.values()))[::-1]
     n = len(s)
     mx = float(np.max(np.abs(s))) if n else 0.0
-    ns, ne, same = classify(s, _thr(kw.get("tol", 0), mx))
+    ns, ne, same = classify(s, _thr(kw.get("tol", 0), mx), rel)
     kept_all = np.sort(cat(kept.values()))[::-1]
     kept_nz = kept_all[kept_all != 0]
     accepted = []
@@ -500,7 +510,9 @@ def judge_multiplets_flag(ctx, blocks, kept, kw, w):
 
 
 def judge_mask_multiplets(ctx, blocks, kept, kw, w):
-    """truncation_mask_multiplets: cut at the nearest multiplet boundary at or below K0 = min(D_total, #{v > tol max})."""
+    """truncation_mask_multiplets: cut at the nearest multiplet boundary at or below K0 = min(D_total, #{v > tol max}).
+
+    returns True (explained), None (not judged: documentation silent), False (violation reported)."""
     s = np.sort(cat(blocks.values()))[::-1]
     n = len(s)
     eps = kw.get("eps_multiplet", 1e-13)
@@ -508,9 +520,10 @@ def judge_mask_multiplets(ctx, blocks, kept, kw, w):
     ns, ne, same = classify(s, _thr(kw.get("tol", 0), mx))
     kept_all = np.sort(cat(kept.values()))[::-1]
     kept_nz = kept_all[kept_all != 0]
-    accepted = []
+    accepted, unjudged, K0max = [], None, 0
     for N in options(ns, ne, same):
         K0 = capped(kw.get("D_total", INF), N)
+        K0max = max(K0max, K0)
         if K0 >= n:
             p = n
         else:
@@ -518,27 +531,33 @@ def judge_mask_multiplets(ctx, blocks, kept, kw, w):
             for i in range(K0, 0, -1):                      # boundary between the i-th and (i+1)-th largest
                 r = rel_gap(s[i - 1], s[i])
                 if max(abs(s[i - 1]), abs(s[i])) < 1e-9 or abs(r - eps) <= 1e-6 * eps:
-                    ctx.count("unjudged:multiplet-gap-at-eps")
-                    return None
+                    unjudged = "unjudged:multiplet-gap-at-eps"
+                    break
                 if r > eps:
                     p = i
                     break
-            if p is None:
+            else:
                 if K0 == 0:
                     p = 0
                 else:
                     # the leading multiplet is larger than the limit: no boundary exists, the docstring does not say what happens
-                    ctx.count("unjudged:leading-multiplet-exceeds-limit")
-                    if len(kept_all) > K0:
-                        ctx.violation("truncation_mask_multiplets:D_total-exceeded", f"{len(kept_all)} kept, limit {K0}", w)
-                    return None
+                    unjudged = "unjudged:leading-multiplet-exceeds-limit"
+            if p is None:
+                continue
         accepted.append(p)
         exp = s[:p]
         exp = exp[exp != 0]
-        if exp.shape == kept_nz.shape and np.all(exp == kept_nz) and len(kept_all) <= max(p, 0) + (n if p == n else 0):
+        if exp.shape == kept_nz.shape and np.all(exp == kept_nz) and len(kept_all) <= p:
             if p < K0:
                 ctx.count("multiplet_cut_moved")
             return True
+    if len(kept_all) > K0max:
+        ctx.violation("truncation_mask_multiplets:limit-exceeded", f"truncation_mask_multiplets({kw_desc(kw)}) on values {s.tolist()[:12]}: "
+                      f"{len(kept_all)} values kept, the limits allow at most {K0max}", w)
+        return False
+    if unjudged:
+        ctx.count(unjudged)
+        return None
     ctx.violation("truncation_mask_multiplets:cut", f"truncation_mask_multiplets({kw_desc(kw)}) on values {s.tolist()[:12]}: kept "
                   f"{kept_all.tolist()[:12]}; expected the {sorted(set(accepted))} largest (nearest multiplet boundary at or below the limits)", w)
     return False
@@ -599,43 +618,42 @@ def multiplet_case(ctx, idx, sym):
 
 # ------------------------------------------------------------------ (C) decompositions
 
-def match_kept(full, kept, scale):
-    """Map every kept value to a distinct value of the full sector spectrum (nearest); returns (matched full values | None)."""
+REL_RECOMPUTED = 1e-12     # two computations of the same spectrum agree to rounding: values closer than this are ties
+
+
+def cluster(full, rel=REL_RECOMPUTED):
+    """{t: values} -> {t: representatives}: values within ``rel`` (relative, chained) share one representative, values below
+    rel * (largest value of their sector) are numerical zeros (representative 0.0, weightless)."""
+    items = []
+    for t, v in full.items():
+        v = np.asarray(v, dtype=float)
+        mx = float(np.max(np.abs(v))) if len(v) else 0.0
+        items += [(float(x), t, i, abs(x) <= rel * mx) for i, x in enumerate(v)]
+    out = {t: np.zeros(len(v)) for t, v in full.items()}
+    cur = None
+    for x, t, i, tiny in sorted(items, key=lambda z: -z[0]):
+        if tiny:
+            continue
+        if cur is None or abs(cur - x) > rel * abs(cur):
+            cur = x
+        out[t][i] = cur
+    return out
+
+
+def match_kept(full, reps, kept, scale):
+    """Map every kept value to a distinct value of the full sector spectrum (nearest); returns their representatives | None."""
     full = list(np.asarray(full, dtype=float))
-    out = []
+    reps = list(np.asarray(reps, dtype=float))
+    out, raw = [], []
     for v in np.asarray(kept, dtype=float):
         if not full:
-            return None
+            return None, None
         j = int(np.argmin([abs(v - x) for x in full]))
-        if abs(v - full[j]) > 1e-13 * max(scale, 1e-300):
-            return None
-        out.append(full.pop(j))
-    return np.array(out, dtype=float)
-
-
-def design_values(rng, k):
-    pat = rng.choice(("dyadic", "dyadic+zeros", "equal", "levels"))
-    if pat == "equal":
-        return [1.0] * k
-    if pat == "levels":
-        lv = [1.0, 0.5, 0.1]
-        return sorted((rng.choice(lv) for _ in range(k)), reverse=True)
-    v = [2.0 ** -rng.randint(0, 4) for _ in range(k)]
-    if pat.endswith("zeros"):
-        v = [0.0 if rng.random() < 0.25 else x for x in v]
-    return sorted(v, reverse=True)
-
-
-def redesign_svd(rng, ht, flatL, flatR):
-    """Same legs, sector-wise U diag(designed) V: spectrum with exact (to rounding) degeneracies and zeros."""
-    sec = F.Sectors(ht, flatL, flatR, 1, ht.n)
-    M = np.zeros_like(sec.M)
-    for t, (r, c) in sec.sec.items():
-        u, s, v = np.linalg.svd(sec.matrix(t), full_matrices=False)
-        M[np.ix_(r, c)] = (u * np.array(design_values(rng, len(s)))[None, :]) @ v
-    dims = [ht.legs[i].dim for i in tuple(flatL) + tuple(flatR)]
-    arr = np.transpose(M.reshape(dims), np.argsort(tuple(flatL) + tuple(flatR)))
-    return F.from_dense(ht.sym, ht.legs, ht.n, arr, ht.dtype, keys=sorted(ht.blocks))
+        if abs(v - full[j]) > REL_RECOMPUTED * max(scale, 1e-300):
+            return None, None
+        raw.append(full.pop(j))
+        out.append(reps.pop(j))
+    return np.array(out, dtype=float), np.array(raw, dtype=float)
 
 
 def limits_for_decomp(rng, full, allow_dict=True):
@@ -675,7 +693,7 @@ def trunc_observe(ctx, fn, E, ht, operand, left, right, U, S, V, sU, Un, Vn, Uax
             return None
         Vm = F.mat_first(Vd)
         c04.check_identity(ctx, fn, "VV^+", Vm @ Vm.conj().T, w)
-    c04.check_identity(ctx, fn, "U^+U", Um.conj().T @ Um, w)
+    c04.check_identity(ctx, fn, "U^+U", Um.conj().T @ Um, w, c04.TOL_ISO if V is not None else c04.TOL_ISO_EIGH)
     return Um, s, Vm, F.diag_blocks(S)
 
 
@@ -692,7 +710,7 @@ def svd_trunc_case(ctx, idx, sym):
     left, right = F.bipartition(rng, operand.nlegs)
     flatL, flatR = F.flat_axes(operand, left), F.flat_axes(operand, right)
     if designed:
-        ht = redesign_svd(rng, ht, flatL, flatR)
+        ht = F.redesign_svd(rng, ht, flatL, flatR)
         r2 = random.Random()
         r2.setstate(state)
         operand = F.make_operand(r2, ht, E.cfg)
@@ -710,9 +728,10 @@ def svd_trunc_case(ctx, idx, sym):
     anorm = F.fro(sec.M)
     # full spectrum from the library (same arguments), anchored to NumPy
     Sf = yastn.svd(operand.y, compute_uv=False, **base) if rng.random() < 0.5 else yastn.svd(operand.y, **base)[1]
-    full = F.diag_blocks(Sf)
+    full_raw = F.diag_blocks(Sf)
+    full = cluster(full_raw)      # svd_with_truncation recomputes the spectrum: values equal to rounding are ties, noise is zero
     w = {"sym": sym, "tensor": ht.desc(values=ht.size() <= 120), "operand": operand.info, "axes": [list(left), list(right)],
-         "sU": sU, "nU": nU, "Uaxis": Uaxis, "Vaxis": Vaxis, "full_spectrum": {str(t): v.tolist() for t, v in full.items()}}
+         "sU": sU, "nU": nU, "Uaxis": Uaxis, "Vaxis": Vaxis, "full_spectrum": {str(t): v.tolist() for t, v in full_raw.items()}}
     if not c04.compare_spectra(ctx, "svd", Sf, sec, "svd", None, anorm, w):
         return
     if any(t not in sec.sec for t in full):
@@ -730,7 +749,11 @@ def svd_trunc_case(ctx, idx, sym):
     elif mode == "mask_f":
         k = rng.randint(0, sum(len(v) for v in full.values()) + 1)
         inner = {"D_total": k}
-        kw = {"mask_f": (lambda x: yastn.truncation_mask(x, **inner)), "tol": 0.9, "D_block": 1}     # documented: mask_f overrides the rest
+        # documented: mask_f overrides all other truncation-related arguments -> pass conflicting ones
+        kw = {"mask_f": (lambda x: yastn.truncation_mask(x, **inner))}
+        for name, vals in (("tol", (0.9, 1)), ("tol_block", (0.9,)), ("D_block", (0, 1)), ("D_total", (0, 1))):
+            if rng.random() < 0.6:
+                kw[name] = rng.choice(vals)
         ctx.count("mask_f_used")
     w["kwargs"] = kw_desc(kw)
     U, S, V = yastn.svd_with_truncation(operand.y, Uaxis=Uaxis, Vaxis=Vaxis, **base, **kw) if rng.random() < 0.7 else \
@@ -740,27 +763,27 @@ def svd_trunc_case(ctx, idx, sym):
     if obs is None:
         return
     Um, s, Vm, keptb = obs
-    kept = {}
+    kept, kept_raw = {}, {}
     for t, v in keptb.items():
-        mk = match_kept(full.get(t, []), v, anorm) if t in full else None
+        mk, kept_raw[t] = match_kept(full_raw[t], full[t], v, anorm) if t in full else (None, None)
         if mk is None:
             ctx.violation("svd_with_truncation:kept-not-in-spectrum", f"sector {t}: kept values {v.tolist()[:8]} are not values of the full "
-                          f"spectrum {np.asarray(full.get(t, [])).tolist()[:8]}", w)
+                          f"spectrum {np.asarray(full_raw.get(t, [])).tolist()[:8]}", w)
             return
         if np.any(np.diff(v) > 0):
             ctx.violation("svd_with_truncation:S-order", f"sector {t}: truncated singular values are not non-increasing {v.tolist()[:8]}", w)
         kept[t] = mk
     if mode == "multiplets":
-        judge_multiplets_flag(ctx, full, kept, {k: v for k, v in kw.items() if k in ("D_total", "tol")}, w)
+        judge_multiplets_flag(ctx, full, kept, {k: v for k, v in kw.items() if k in ("D_total", "tol")}, w, REL_RECOMPUTED)
         ctx.count("multiplet_masks_judged")
     elif mode == "mask_f":
-        judge_mask(ctx, "svd_with_truncation", full, kept, inner, w)
+        judge_mask(ctx, "svd_with_truncation", full, kept, inner, w, REL_RECOMPUTED)
     else:
-        judge_mask(ctx, "svd_with_truncation", full, kept, kw, w)
+        judge_mask(ctx, "svd_with_truncation", full, kept, kw, w, REL_RECOMPUTED)
     ctx.count("decompositions_judged")
     # error identity on the dense truth
-    disc = collections.Counter(cat(full.values()).tolist())
-    disc.subtract(collections.Counter(cat(kept.values()).tolist()))
+    disc = collections.Counter(cat(full_raw.values()).tolist())
+    disc.subtract(collections.Counter(cat(kept_raw.values()).tolist()))
     dn = float(np.sqrt(sum(v * v * n for v, n in disc.items() if n > 0)))
     err = F.fro((Um * s[None, :]) @ Vm - sec.M)
     ctx.count("error_identity_checked")
@@ -770,37 +793,8 @@ def svd_trunc_case(ctx, idx, sym):
                       f"(||a|| = {anorm:.3e})", w)
     ctx.case(("svd_trunc", operand.sig(), left, right, sU, nU, Uaxis, Vaxis, mode, kw_struct({k: v for k, v in kw.items() if k != 'mask_f'})),
              sum(len(v) for v in full.values()) >= 2,
-             {"workload": "svd_with_truncation", "sym": sym, "kwargs": kw_desc(kw), "full": {str(t): v.tolist() for t, v in full.items()},
-              "kept": {str(t): v.tolist() for t, v in kept.items()}} if idx % 40 == 2 else None)
-
-
-def redesign_eigh(rng, h, flatL, flatR, psd):
-    sec = F.Sectors(h, flatL, flatR, 1, h.n)
-    M = np.zeros_like(sec.M)
-    for t, (r, c) in sec.sec.items():
-        ev, u = np.linalg.eigh(sec.matrix(t))
-        d = np.array(design_values(rng, len(ev)))
-        if not psd:
-            d = d * np.array([rng.choice((1, -1)) for _ in d])
-        X = (u * d[None, :]) @ u.conj().T
-        M[np.ix_(r, c)] = (X + X.conj().T) / 2
-    dims = [h.legs[i].dim for i in tuple(flatL) + tuple(flatR)]
-    arr = np.transpose(M.reshape(dims), np.argsort(tuple(flatL) + tuple(flatR)))
-    return F.from_dense(h.sym, h.legs, h.n, arr, h.dtype, keys=sorted(h.blocks))
-
-
-def square_psd(h, flatL, flatR):
-    """h h^+ over the same legs (positive semi-definite, same sectors)."""
-    dims = [h.legs[i].dim for i in tuple(flatL) + tuple(flatR)]
-    L = int(np.prod(dims[:len(flatL)]))
-    M = np.transpose(h.dense(), tuple(flatL) + tuple(flatR)).reshape(L, L)
-    P = M @ M.conj().T
-    P = (P + P.conj().T) / 2
-    arr = np.transpose(P.reshape(dims), np.argsort(tuple(flatL) + tuple(flatR)))
-    # support: every charge-allowed block between rows / columns that h covers
-    pres = [set(k[i] for k in h.blocks) for i in range(h.rank)]
-    keys = [k for k in D.allowed_keys(h.sym, h.legs, h.n) if all(k[i] in pres[i] for i in range(h.rank))]
-    return F.from_dense(h.sym, h.legs, h.n, arr, h.dtype, keys=keys)
+             {"workload": "svd_with_truncation", "sym": sym, "kwargs": kw_desc(kw), "full": {str(t): v.tolist() for t, v in full_raw.items()},
+              "kept": {str(t): v.tolist() for t, v in kept_raw.items()}} if idx % 40 == 2 else None)
 
 
 def transform(vals, which):
@@ -817,14 +811,14 @@ def eigh_trunc_case(ctx, idx, sym):
     hp, posL, posR = c04.hide_pairs(E, h, k)
     kind = rng.choice(("herm", "psd", "designed", "designed-psd"))
     state = rng.getstate()
-    operand, left, right = c04.paired_operand(E, hp, posL, posR)
+    operand, left, right = c04.paired_operand(E, hp, posL, posR, count=False)
     flatL, flatR = F.flat_axes(operand, left), F.flat_axes(operand, right)
     if kind != "herm" and hp.blocks:
-        hp = square_psd(hp, flatL, flatR) if kind == "psd" else redesign_eigh(rng, hp, flatL, flatR, kind == "designed-psd")
+        hp = F.square_psd(hp, flatL, flatR) if kind == "psd" else F.redesign_eigh(rng, hp, flatL, flatR, kind == "designed-psd")
         r2 = random.Random()
         r2.setstate(state)
         E.rng = r2
-        operand, left, right = c04.paired_operand(E, hp, posL, posR)
+        operand, left, right = c04.paired_operand(E, hp, posL, posR, count=False)
         E.rng = rng
         if kind.startswith("designed"):
             ctx.count("decomp_designed_spectrum")
@@ -843,7 +837,7 @@ def eigh_trunc_case(ctx, idx, sym):
          "Uaxis": Uaxis, "which": which, "kind": kind, "full_spectrum": {str(t): v.tolist() for t, v in fullS.items()}}
     if not c04.compare_spectra(ctx, "eigh", Sf, sec, "eigh", which, anorm, w):
         return
-    full = {t: transform(v, which) for t, v in fullS.items()}
+    full = cluster({t: transform(v, which) for t, v in fullS.items()})
     allv = cat(full.values())
     nonneg = bool(np.all(allv >= 0))
     # parameter domain per transformed spectrum (see module docstring)
@@ -873,16 +867,16 @@ def eigh_trunc_case(ctx, idx, sym):
     Um, s, _, keptb = obs
     kept, keptS = {}, {}
     for t, v in keptb.items():
-        mk = match_kept(fullS.get(t, []), np.real(v), anorm) if t in fullS else None
+        mk, raw = match_kept(fullS[t], full[t], np.real(v), anorm) if t in fullS else (None, None)
         if mk is None:
             ctx.violation("eigh_with_truncation:kept-not-in-spectrum", f"sector {t}: kept {np.asarray(v).tolist()[:8]} not in the full spectrum "
                           f"{np.asarray(fullS.get(t, [])).tolist()[:8]}", w)
             return
         if not c04.order_ok(v, which, anorm):
             ctx.violation("eigh_with_truncation:S-order:" + which, f"sector {t}: kept eigenvalues not ordered as which={which}: {np.asarray(v).tolist()[:8]}", w)
-        keptS[t] = mk
-        kept[t] = transform(mk, which)
-    judge_mask(ctx, "eigh_with_truncation", full, kept, kw, w)
+        keptS[t] = raw
+        kept[t] = mk
+    judge_mask(ctx, "eigh_with_truncation", full, kept, kw, w, REL_RECOMPUTED)
     ctx.count("decompositions_judged")
     disc = collections.Counter(cat(fullS.values()).tolist())
     disc.subtract(collections.Counter(cat(keptS.values()).tolist()))
@@ -890,7 +884,8 @@ def eigh_trunc_case(ctx, idx, sym):
     err = F.fro((Um * s[None, :]) @ Um.conj().T - sec.M)
     ctx.count("error_identity_checked")
     ctx.count("error_identity_nonzero", int(dn > 0))
-    if not ctx.margin("eigh_with_truncation:error-identity", abs(err - dn), 1e-12 * max(anorm, 1e-300)):
+    # scipy's eigh (MRRR) reconstructs clustered spectra to ~5e-14 ||a||: 1e-11 keeps two orders of magnitude of head-room
+    if not ctx.margin("eigh_with_truncation:error-identity", abs(err - dn), 1e-11 * max(anorm, 1e-300)):
         ctx.violation("eigh_with_truncation:error-identity", f"||a - U S U^+|| = {err:.6e} but the discarded eigenvalues have norm {dn:.6e} "
                       f"(||a|| = {anorm:.3e})", w)
     ctx.case(("eigh_trunc", operand.sig(), left, right, sU, Uaxis, which, kind, kw_struct(kw)), sum(len(v) for v in full.values()) >= 2,
@@ -945,7 +940,10 @@ def canaries(ctx):
     sub.violations.clear()
     ctx.canary("multiplets-fn", judge_mask_multiplets(sub, mb, {(0,): [1.0, 1.0]}, {"D_total": 3}, {}) is True
                and judge_mask_multiplets(sub, mb, {(0,): [1.0, 1.0, 0.5]}, {"D_total": 3}, {}) is False)
-    ctx.canary("match-kept", match_kept([1.0, 0.5, 0.5], [0.5, 0.5], 1.0) is not None and match_kept([1.0, 0.5], [0.5, 0.5], 1.0) is None)
+    ctx.canary("match-kept", match_kept([1.0, 0.5, 0.5], [1.0, 0.5, 0.5], [0.5, 0.5], 1.0)[0] is not None
+               and match_kept([1.0, 0.5], [1.0, 0.5], [0.5, 0.5], 1.0)[0] is None)
+    cl = cluster({(0,): [1.0, 0.5, 0.5 - 1e-16, 1e-17], (1,): [0.5 + 1e-16, 0.25]})
+    ctx.canary("cluster", cl[(0,)][1] == cl[(0,)][2] == cl[(1,)][0] and cl[(0,)][3] == 0.0 and cl[(1,)][1] == 0.25)
 
 
 def finalize(cov, merged):
